@@ -37,6 +37,7 @@ const Service = "ssh-connection"
 const (
 	Alice = "alice"
 	Bob   = "bob"
+	Empty = "" // the empty user name
 )
 
 // Allowed is the PublicKeyAuthAlgorithms list used everywhere: ssh-rsa (SHA-1) is NOT in it.
@@ -112,6 +113,7 @@ func NewFixture() *Fixture {
 	f.Accepted = map[string]map[string]bool{
 		Alice: {"K1": true, "K2": true, "KR": true, "KC": true},
 		Bob:   {"K2": true},
+		Empty: {"K2": true},
 	}
 	hk, err := ssh.NewSignerFromKey(edKey("host", 220).Priv)
 	if err != nil {
@@ -260,6 +262,18 @@ func (f *Fixture) Alphabet() []Item {
 		add(t0, "unknown-method", u, one(ref.AuthRequest(u, Service, "hostbased", ref.Str([]byte("x")))))
 		add(0, "query-K2", u, query(u, f.K2))
 		add(0, "signed-K2", u, valid(u, f.K2))
+	}
+	// a third user whose name is the empty string (a legal user name on the wire; "" is a
+	// tempting "not set" sentinel in server-side bookkeeping)
+	{
+		e := Empty
+		add(1, "none", e, one(ref.AuthRequest(e, Service, "none", nil)))
+		add(1, "pw-ok", e, one(ref.AuthRequest(e, Service, "password", ref.PasswordPayload("pw-"+e))))
+		kbdE := ref.AuthRequest(e, Service, "keyboard-interactive", ref.KbdPayload())
+		ansE := ref.InfoResponse("ans-" + e)
+		add(2, "kbd-ok", e, func([]byte) [][]byte { return [][]byte{kbdE, ansE} })
+		add(2, "query-K2", e, query(e, f.K2))
+		add(1, "signed-K2", e, valid(e, f.K2))
 	}
 	u := Alice
 	add(1, "signed-KR", u, valid(u, f.KR))
